@@ -299,7 +299,8 @@ get_block(struct mtbl_reader *r, uint64_t offset)
 }
 
 static struct block *
-get_block_at_index(struct mtbl_reader *r, struct block_iter *index_iter)
+get_block_at_index(struct mtbl_reader *r, struct block_iter *index_iter,
+		   uint64_t *block_offset)
 {
 	const uint8_t *ikey, *ival;
 	size_t len_ikey, len_ival;
@@ -310,6 +311,7 @@ get_block_at_index(struct mtbl_reader *r, struct block_iter *index_iter)
 
 		mtbl_varint_decode64(ival, &offset);
 		b = get_block(r, offset);
+		*block_offset = offset;
 		return (b);
 	}
 
@@ -326,7 +328,7 @@ reader_iter(void *clos)
 	it->index_iter = block_iter_init(r->index);
 
 	block_iter_seek_to_first(it->index_iter);
-	it->b = get_block_at_index(r, it->index_iter);
+	it->b = get_block_at_index(r, it->index_iter, &it->block_offset);
 	if (it->b == NULL) {
 		block_iter_destroy(&it->index_iter);
 		block_destroy(&it->b);
@@ -352,7 +354,7 @@ reader_iter_init(struct mtbl_reader *r, const uint8_t *key, size_t len_key)
 	it->index_iter = block_iter_init(r->index);
 
 	block_iter_seek(it->index_iter, key, len_key);
-	it->b = get_block_at_index(r, it->index_iter);
+	it->b = get_block_at_index(r, it->index_iter, &it->block_offset);
 	if (it->b == NULL) {
 		block_iter_destroy(&it->index_iter);
 		block_destroy(&it->b);
@@ -515,7 +517,7 @@ reader_iter_next(void *v,
 		block_iter_destroy(&it->bi);
 		if (!block_iter_next(it->index_iter))
 			return (mtbl_res_failure);
-		it->b = get_block_at_index(it->r, it->index_iter);
+		it->b = get_block_at_index(it->r, it->index_iter, &it->block_offset);
 		it->bi = block_iter_init(it->b);
 		block_iter_seek_to_first(it->bi);
 		it->valid = block_iter_get(it->bi, key, len_key, val, len_val);
